@@ -182,6 +182,11 @@ func check(c Case, st *rig.Stats) error {
 			}
 		case "gadd":
 			if inGroup[0] {
+				// already a member: the second Add must be refused without wrapping anything again
+				if _, panicked := rig.Try(func() { grp.Add(mux.NewPathVersion("", "v9"), routers[0].r.Router) }); !panicked {
+					return rig.Violf("duplicate-router-accepted", "%s: a router that is already a member was added again", when)
+				}
+				classes = append(classes, "member-offered-again")
 				break
 			}
 			grp.Add(mux.NewPathVersion("", "v0"), routers[0].r.Router)
